@@ -1,5 +1,9 @@
 # Table of claimed / not-applicable properties; MANIFEST.json is generated from it (gen_manifest.py).
 CLAIMED = {
+ "C05": {
+  "text": "Bounded symbolic model checking of the real block store (addBlockOnChain, insertBlock, saveStates, updateLastBlock, remove, removeFromCommonAncestor, add/remove marks, ensureChainConsistency, the query functions) over recording stores: for every delivery order of a small block tree with symbolic chain weights the head stays linked to genesis, hash and height indexes agree with the head's chain, nothing above the head is indexed, the head's state opens from disk alone, the head never moves to a lighter chain and its block is marked executed; and for a process death after every physical write of a delivery followed by a restart the same invariant holds with the head being the old head, the new head or an ancestor.",
+  "note": "Trusted: gosym and its models, z3, hashes as collision-free functions, atomic batches. Blocks are delivered pre-verified (execution and consensus checks are outside); five blocks.",
+ },
  "C07": {
   "text": "Bounded symbolic model checking of the real TxPool.VerifyTransaction (verifyTxChainId, verifyTransactionHash, verifyTransactionSign, verifyETHTx, compareTx) with eth_tx.SignTx/Sender/ConvertTx and the rlp codec, over an ideal-signature model of secp256k1: every honestly signed native or EIP-155 transaction within the bounds is accepted; changing any one authenticated field (hash left or recomputed), the hash, the signature (any single bit, or another signer's), the chain id, or any wrapper field / payload bit of a wrapped Ethereum transaction makes it rejected.",
   "note": "Trusted: gosym and its models, z3, the ideal signature model standing in for the secp256k1 C library (validated on sampled paths against the real library), hashes as injective functions. Keys are concrete; nonce/type enumerated.",
